@@ -21,11 +21,12 @@ def run(ctx):
                                 extra=["-gate", "off"])
     # the same scripts with a body-size limit below most bodies (streaming does not reject them: the prefetch path differs)
     # (limit 64: the big bodies exceed it; limit 4: the small ones do, with the next request in the same read)
-    for lim in (64, 4):
+    # (limits 5 and 17 equal two of the body lengths: a body of exactly the limit is not "over" it)
+    for lim in (64, 4, 5, 17):
         limited = os.path.join(ctx.scratch, "stream_limited%d.ndjson" % lim)
         with open(cases) as f, open(limited, "w") as g:
             for i, line in enumerate(f):
-                if ctx.quick and i % 3:
+                if ctx.quick and i % (3 if lim in (64, 4) else 5):
                     continue
                 c = json.loads(line)
                 c["fault"] = {"truncate": 0, "wfail": 0, "maxBody": lim, "stall": False}
